@@ -99,15 +99,50 @@ Proof. intros <-. rewrite firstn_app, Nat.sub_diag, firstn_all, firstn_O, app_ni
 Lemma skipn_app_exact {A} (a b : list A) n : length a = n -> skipn n (a ++ b) = b.
 Proof. intros <-. rewrite skipn_app, Nat.sub_diag, skipn_all. reflexivity. Qed.
 
+(* bridging lemmas: the readers test only the prefix they need (the extracted code must not
+   compute the length of the whole remaining buffer); these restore the old defining equations *)
+Lemma ltb_firstn_length {A} (l : list A) n :
+  Nat.ltb (length (firstn n l)) n = Nat.ltb (length l) n.
+Proof.
+  rewrite firstn_length.
+  destruct (Nat.ltb (length l) n) eqn:E.
+  - apply Nat.ltb_lt in E. apply Nat.ltb_lt. lia.
+  - apply Nat.ltb_ge in E. apply Nat.ltb_ge. lia.
+Qed.
+
+Lemma has_at_least_spec {A} (l : list A) k : has_at_least l k = (k <=? Z.of_nat (length l)).
+Proof.
+  revert k. induction l as [|x l IH]; intros k; cbn [has_at_least length].
+  - destruct (k <=? 0) eqn:E; lia.
+  - destruct (k <=? 0) eqn:E; [lia|]. rewrite IH. lia.
+Qed.
+
+Lemma zread_unfold n bs :
+  zread n bs = if Nat.ltb (length bs) n then Err EUnexpectedEOF else Ok (firstn n bs, skipn n bs).
+Proof. unfold zread. rewrite ltb_firstn_length. reflexivity. Qed.
+
+Lemma zread_bytes_unfold bs :
+  zread_bytes bs =
+  let* '(len, r) := zread_i32 bs in
+  if len <=? 0 then Ok ([], r)
+  else if Z.of_nat (length r) <? len then Err EUnexpectedEOF
+  else zread (Z.to_nat len) r.
+Proof.
+  unfold zread_bytes. destruct (zread_i32 bs) as [[len r]|e|w]; cbn [bind]; [|reflexivity|reflexivity].
+  rewrite has_at_least_spec.
+  replace (negb (len <=? Z.of_nat (length r))) with (Z.of_nat (length r) <? len) by lia.
+  reflexivity.
+Qed.
+
 Lemma zread_app n a b : length a = n -> zread n (a ++ b) = Ok (a, b).
 Proof.
-  intros H. unfold zread. rewrite app_length, H.
+  intros H. rewrite zread_unfold. rewrite app_length, H.
   destruct (Nat.ltb (n + length b) n) eqn:E; [apply Nat.ltb_lt in E; lia|].
   rewrite firstn_app_exact, skipn_app_exact by exact H. reflexivity.
 Qed.
 
 Lemma zread_short n bs : (length bs < n)%nat -> zread n bs = Err EUnexpectedEOF.
-Proof. intros H. unfold zread. apply Nat.ltb_lt in H. rewrite H. reflexivity. Qed.
+Proof. intros H. rewrite zread_unfold. apply Nat.ltb_lt in H. rewrite H. reflexivity. Qed.
 
 Lemma zread_i8_app z r : in_i8 z -> zread_i8 (enc_i8 z ++ r) = Ok (z, r).
 Proof. intros H. unfold zread_i8. rewrite zread_app by apply be_enc_length. cbn [bind]. rewrite dec_enc_i8 by exact H. reflexivity. Qed.
@@ -134,4 +169,26 @@ Proof.
   split.
   - intros H E. apply bytes_eqb_eq in E. rewrite E in H. discriminate.
   - intros H. destruct (bytes_eqb a b) eqn:E; [apply bytes_eqb_eq in E; contradiction|reflexivity].
+Qed.
+
+(* the same bridging lemmas for the Cursor readers of Model/Codecs.v *)
+From KV Require Import Model.Codecs.
+
+Lemma cread_unfold n bs :
+  cread n bs =
+  if Nat.ltb (length bs) n then Err (EIo IoUnexpectedEof) else Ok (firstn n bs, skipn n bs).
+Proof. unfold cread. rewrite ltb_firstn_length. reflexivity. Qed.
+
+Lemma dec_bytes_unfold bs :
+  dec_bytes bs =
+  let* '(len, r) := dec_i32 bs in
+  if len <=? 0 then Ok ([], r)
+  else
+    if ulen r <? len then Err EUnexpectedEOF
+    else let n := Z.to_nat len in Ok (firstn n r, skipn n r).
+Proof.
+  unfold dec_bytes. destruct (dec_i32 bs) as [[len r]|e|w]; cbn [bind]; [|reflexivity|reflexivity].
+  rewrite has_at_least_spec. unfold ulen.
+  replace (negb (len <=? Z.of_nat (length r))) with (Z.of_nat (length r) <? len) by lia.
+  reflexivity.
 Qed.
